@@ -52,6 +52,7 @@ def init_process(lits):
         OPSM.bind(lits)
         _W["lits"] = lits
         _W["S0"] = SN.snapshot()
+        _W["S_import"] = dict(_W["S0"])
     return _W["S0"]
 
 
@@ -69,8 +70,12 @@ def step(name):
     after = SN.digest(SN.canon([args, kwargs]))
     S = SN.snapshot()
     _W["log"].append(name)
+    d = SN.diff(_W["S0"], S)
+    # memo tables (empty / absent at import time) are not constants: noted, not reported; a wrong
+    # memo shows as a history-dependent RESULT
+    cachey = [k for k in d if SN.cache_like(k, _W["S_import"])]
     return {"op": name, "result": SN.digest(res), "short": json.dumps(res)[:160], "args_mutated": before != after,
-            "state_diff": SN.diff(_W["S0"], S)}
+            "state_diff": [k for k in d if k not in cachey], "cache_like_changes": cachey}
 
 
 def run_sequence(names, lits):
@@ -112,6 +117,8 @@ def task_fresh(a, env):
             if rec["args_mutated"]:
                 r.viol("C20:arguments-mutated:%s" % name, ME + ":replay_seq", base, "arguments unchanged", "mutated")
         fresh[name] = recs[0]["result"]
+        for k in recs[0].get("cache_like_changes", []):
+            r.notes.setdefault("mutable_working_state_observed", {})[k] = 1
     r.notes["fresh"] = fresh
     r.states = 1
     if a.get("sample"):
